@@ -213,8 +213,16 @@ def reference_input(text: str) -> str:
     if not any(_tag_only(ln) for ln in lines):
         return text
     out: list[str] = []
+    fence = None  # (char, length) of the open fenced code block, if any: its lines are literal
     for i, ln in enumerate(lines):
-        if i > 0:
+        in_code = fence is not None
+        m = re.match(r"^ {0,3}(`{3,}|~{3,})(.*)$", ln)
+        if fence is None:
+            if m and not (m.group(1)[0] == "`" and "`" in m.group(2)):
+                fence = (m.group(1)[0], len(m.group(1)))
+        elif m and m.group(1)[0] == fence[0] and len(m.group(1)) >= fence[1] and not m.group(2).strip():
+            fence = None
+        if i > 0 and not in_code:
             prev = lines[i - 1]
             if prev.strip() and ((_tag_only(prev) and _blockish(ln)) or (_blockish(prev) and _tag_only(ln))):
                 out.append("")
